@@ -46,6 +46,7 @@ package sonic
 //@   ensures [armed] invoked(cb) == 0 ==> a.slot.Handlers[0] == a.readReactor.onRead &&
 //@           readBytes <= a.readReactor.readSoFar && a.readReactor.readSoFar <= len(b) &&
 //@           a.readReactor.b == b && a.readReactor.readAll == readAll
+//@   ensures [work-left] invoked(cb) == 0 && old(readBytes) < len(b) ==> a.readReactor.readSoFar < len(b)
 
 //@ func (*asyncAdapterReadReactor).onRead
 //@   prop C01, C02
@@ -90,6 +91,7 @@ package sonic
 //@   ensures [armed] invoked(cb) == 0 ==> a.slot.Handlers[1] == a.writeReactor.onWrite &&
 //@           writtenBytes <= a.writeReactor.wroteSoFar && a.writeReactor.wroteSoFar <= len(b) &&
 //@           a.writeReactor.b == b && a.writeReactor.writeAll == writeAll
+//@   ensures [work-left] invoked(cb) == 0 && old(writtenBytes) < len(b) ==> a.writeReactor.wroteSoFar < len(b)
 
 //@ func (*asyncAdapterWriteReactor).onWrite
 //@   prop C01, C02
